@@ -58,7 +58,24 @@ class SymCall:
                 v = S.symbolic_value(pt, nm)
                 self.pre[pn] = v
                 call_args.append(v)
+        n0 = len(S.narrowings)
         self.ret = S.call(f, call_args, st)
+        # precision audit: no value may be narrowed below the numeric type of the result it contributes to
+        RANK = {'float': 0, 'double': 1, 'long double': 2}
+        try:
+            from . import replay as _rp
+            rt = ('rec', f.record) if f.kind == 'ctor' else (f.ret[1] if f.ret[0] in ('ptr', 'ref') else f.ret)
+            fl = [lt[1] for lt in _rp.leaf_types(low, rt) if lt[0] == 'f'] if rt != ('void',) else []
+            if not fl and f.kind == 'method' and f.ret == ('void',):
+                st_t = f.params[0][1]
+                fl = [lt[1] for lt in _rp.leaf_types(low, st_t[1] if st_t[0] == 'ptr' else st_t) if lt[0] == 'f']
+        except Exception:
+            fl = []
+        if fl:
+            floor = min(RANK[x] for x in fl)
+            for to, frm in S.narrowings[n0:]:
+                if RANK[to] < floor:
+                    S.narrow_bad.append((to, frm, f.qualname, [k for k, v in RANK.items() if v == floor][0]))
         if isinstance(self.ret, Ptr):
             self.ret_ptr = self.ret
             self.ret = S.load(st, self.ret)
@@ -96,10 +113,17 @@ class RealTask:
         self.inputs = list(inputs)
         self.timeout = timeout
         self.ob.text = text
+        self.S = S
 
     def run(self):
         ob = self.ob
         try:
+            bad = getattr(self.S, 'narrow_bad', None) if self.S is not None else None
+            if bad:
+                to, frm, fn, res = bad[0]
+                ob.status, ob.backend = 'failed', 'phqv symex (precision audit)'
+                ob.detail = 'a %s value is narrowed to %s inside %s on its way into a %s result: the result cannot have the precision of its type' % (frm, to, fn, res)
+                return ob
             if self.goal == TRUE:
                 ob.status, ob.backend, ob.detail = 'discharged', 'phqv-simplifier', 'goal simplified to true'
                 return ob
